@@ -426,7 +426,7 @@ Definition v0d_body (sh : v0d_shape) : stmt :=
            end).
 
 Definition v0d_field_closure (sh : v0d_shape) (i : nat) (f : v0d_field) : list pstr :=
-  when (df_has_default f && negb (dskip_on (d_skip_defaults_if sh))) [dflt_name i]
+  when (df_has_default f && (negb (dskip_on (d_skip_defaults_if sh)) || is_catch (df_key f))) [dflt_name i]
   ++ when (match df_key f with DKey _ | DPath _ => dskip_closure (df_skip f) | _ => false end) [skip_if_name i].
 
 Definition ret_type_name (fname : pstr) : pstr := S "__dataclass_" ++ fname ++ S "_return_type__".
@@ -452,11 +452,6 @@ Definition v0_dump_fn (sh : v0d_shape) : fn :=
      fn_body := v0d_body sh;
      fn_closure := v0d_closure sh;
      fn_globals := when (d_env sh) [S "T"] |}.
-
-(* the one shape on which the generator refers to a name it does not bind *)
-Definition v0d_unsafe (sh : v0d_shape) : bool :=
-  dskip_on (d_skip_defaults_if sh)
-  && existsb (fun f => is_catch (df_key f) && df_has_default f) (d_fields sh).
 
 (* ======================================================================== *)
 (* EnvWizard: __init__(self, _env_file, _reload, _env_prefix, _secrets_dir, <fields>) and dict(self) *)
